@@ -196,10 +196,35 @@ def compact_lines(ctx, parse, lint, n):
             shutil.rmtree(d, ignore_errors=True)
 
 
+def warning_counts(ctx):
+    """check-only mode exits non-zero for ANY positive number of warnings - also for 255, 256, 257, 512 (an exit status has 8 bits)."""
+    res = ctx.res
+    d = ctx.casedir("counts")
+    try:
+        for n in (0, 1, 255, 256, 257, 512):
+            path = os.path.join(d, f"count{n}.bitproto")
+            with open(path, "w") as fh:
+                fh.write("proto counts\n" + "".join(f"const lower_case_{k} = {k}\n" for k in range(n)) + "message Holder {\n    bool flag = 1\n}\n")
+            rc, so, se = sut_compiler.cli(["-c", path])
+            printed = len(WARN_RE.findall(se + so))
+            res.count("check_only_runs_by_warning_count")
+            if printed != n:
+                res.inconclusive.append(f"{n} lower-case constants gave {printed} recognisable warnings (diagnostic format changed?)")
+                continue
+            if (rc != 0) != (n > 0):
+                res.violation("check-only-exit-status:by-count", f"-c exits {rc} for a schema with {n} warnings", {"part": "warning-counts", "warnings": n, "exit": rc})
+    finally:
+        shutil.rmtree(d, ignore_errors=True)
+
+
 def worker(ctx):
     res = ctx.res
     contracts.install()
     parse, _, render, lint, errors = sut_compiler.bitproto_api()
+    if ctx.shard == 0 and (ctx.replay is None or ctx.replay["witness"].get("part") == "warning-counts"):
+        warning_counts(ctx)
+        if ctx.replay is not None:
+            return
     if ctx.replay is None or ctx.replay["witness"].get("part") == "compact-lines":
         compact_lines(ctx, parse, lint, 12 if ctx.quick else 200)
         if ctx.replay is not None:
@@ -413,7 +438,7 @@ if __name__ == "__main__":
               "-q is byte-identical and -c exits non-zero exactly when there is an error or a warning"),
         assumptions=["only clear case violations are asserted to warn; nothing is asserted about indentation warnings except that conforming files have none",
                      "columns are 1-based (language server contract)"],
-        required_counters=["compact_line_definitions_checked", "definition_positions_checked", "reference_positions_checked", "lint_runs", "conforming_linted", "perturbations_checked",
+        required_counters=["check_only_runs_by_warning_count", "compact_line_definitions_checked", "definition_positions_checked", "reference_positions_checked", "lint_runs", "conforming_linted", "perturbations_checked",
                            "error_lines_checked", "advisory_pairs_compared", "check_only_runs", "perturbations:type-not-pascal", "perturbations:type-not-pascal:UPPER_SNAKE", "perturbations:field-not-snake", "perturbations:field-not-snake:UPPER_SNAKE",
                            "perturbations:constant-not-upper", "perturbations:enum-member-not-upper", "perturbations:enum-without-zero"],
     )
